@@ -122,7 +122,7 @@ func (c *WarmUpTrafficShapingCalculator) coolDownTokens(currentTime uint64, pass
 	// When token consumption is much lower than the warning line
 	if oldValue < int64(c.warningToken) {
 		newValue = int64(float64(oldValue) + (float64(currentTime)-float64(atomic.LoadUint64(&c.lastFilledTime)))*c.threshold/1000.0)
-	} else if oldValue > int64(c.warningToken) {
+	} else if oldValue >= int64(c.warningToken) {
 		if passQps < float64(uint32(c.threshold)/c.coldFactor) {
 			newValue = int64(float64(oldValue) + float64(currentTime-atomic.LoadUint64(&c.lastFilledTime))*c.threshold/1000.0)
 		}
